@@ -20,12 +20,15 @@
 (* (Functional): not of the object used, of how often it was used, of what   *)
 (* was evaluated before, or of the other architectures around.              *)
 (***************************************************************************)
-EXTENDS LayerSem, DiagramSem, Sequences, TLC
+EXTENDS LayerSem, DiagramSem, Labels, Sequences, TLC
 
 CONSTANTS T,          \* module tree
           Cand,       \* candidate imports
           RuleCfgs, LayerCfgs, DiagCfgs,   \* catalogues of configurations
           Layers,     \* the layer map the layer rules are based on
+          AliasDoms,  \* catalogue of alias maps for visualize(): sets of aliased module names (the alias of m is an
+                      \* opaque token; names outside T are aliases for modules that do not exist)
+          QueryCfgs,  \* catalogue of graph questions [q, dep, upon] (the EvaluableArchitecture protocol)
           ObjIds, MaxArchs, MaxHist
 
 VARIABLES archs, objs, results, hist
@@ -33,10 +36,24 @@ svars == <<archs, objs, results, hist>>
 
 Cfgs(fam) == CASE fam = "rule" -> RuleCfgs [] fam = "layer" -> LayerCfgs [] fam = "diagram" -> DiagCfgs
 
+\* the three graph questions: per pair (deps) / per dependent (other_from) / per dependent-upon (other_on) the imports
+\* found - the sets violation messages are generated from
+AsImport(dep, upon)   == [verb |-> "should_not", dir |-> "import",   exc |-> TRUE, any |-> FALSE, subs |-> dep,  objs |-> upon]
+AsImported(dep, upon) == [verb |-> "should_not", dir |-> "imported", exc |-> TRUE, any |-> FALSE, subs |-> upon, objs |-> dep]
+QueryResult(I, c) ==
+    LET D == Den(T, c.dep \cup c.upon) IN
+    CASE c.q = "deps"       -> [k \in c.dep \X c.upon |-> EdgeSet(D, I, AsImport(c.dep, c.upon), k[1], k[2])]
+      [] c.q = "other_from" -> [k \in c.dep  |-> OtherSet(D, I, AsImport(c.dep, c.upon), k)]
+      [] c.q = "other_on"   -> [k \in c.upon |-> OtherSet(D, I, AsImported(c.dep, c.upon), k)]
+
 Eval(fam, cfg, I) ==
     CASE fam = "rule"    -> Outcome(Den(T, cfg.subs \cup cfg.objs), I, cfg)
       [] fam = "layer"   -> LOutcome(T, Layers, I, cfg)
       [] fam = "diagram" -> DOutcome(T, I, cfg.comps, cfg.deps, cfg.only, <<>>)
+      [] fam = "viz"     -> LET A == [m \in cfg |-> m] IN            \* visualize(aliases = A): label map, or rejection
+                            IF UnknownAliased(T, A) # {} THEN [out |-> "error", unknown |-> UnknownAliased(T, A)]
+                            ELSE [out |-> "ok", labels |-> LabelMap(T, A)]
+      [] fam = "query"   -> QueryResult(I, cfg)
 
 SInit == archs = <<{}>> /\ objs = <<>> /\ results = {} /\ hist = <<>>
 
@@ -53,6 +70,19 @@ Apply(o, a) ==
     /\ hist' = Append(hist, [op |-> "apply", obj |-> o, arch |-> a])
     /\ UNCHANGED archs
 
+\* visualize() and the graph questions are calls on the architecture itself: no rule object is involved
+Visualize(a, A) ==
+    /\ a \in DOMAIN archs
+    /\ results' = results \cup {<<"viz", A, archs[a], Eval("viz", A, archs[a])>>}
+    /\ hist' = Append(hist, [op |-> "viz", arch |-> a, aliased |-> A])
+    /\ UNCHANGED <<archs, objs>>
+
+Query(a, c) ==
+    /\ a \in DOMAIN archs
+    /\ results' = results \cup {<<"query", c, archs[a], Eval("query", c, archs[a])>>}
+    /\ hist' = Append(hist, [op |-> "query", arch |-> a, cfg |-> c])
+    /\ UNCHANGED <<archs, objs>>
+
 Grow(a, e) ==
     /\ a \in DOMAIN archs /\ Len(archs) < MaxArchs /\ e \in Cand \ archs[a]
     /\ archs' = Append(archs, archs[a] \cup {e})
@@ -64,7 +94,9 @@ Room    == Len(hist) < MaxHist
 DoNew   == Room /\ \E o \in ObjIds, fam \in {"rule", "layer", "diagram"} : \E cfg \in Cfgs(fam) : New(o, fam, cfg)
 DoApply == Room /\ \E o \in ObjIds, a \in 1..MaxArchs : Apply(o, a)
 DoGrow  == Room /\ \E a \in 1..MaxArchs, e \in Cand : Grow(a, e)
-SNext == DoNew \/ DoApply \/ DoGrow
+DoViz   == Room /\ \E a \in 1..MaxArchs, A \in AliasDoms : Visualize(a, A)
+DoQuery == Room /\ \E a \in 1..MaxArchs, c \in QueryCfgs : Query(a, c)
+SNext == DoNew \/ DoApply \/ DoGrow \/ DoViz \/ DoQuery
 SSpec == SInit /\ [][SNext]_svars
 
 \* C15
@@ -75,4 +107,26 @@ Functional   == \A x, y \in results : (x[1] = y[1] /\ x[2] = y[2] /\ x[3] = y[3]
 Reapply      == \A o \in DOMAIN objs : \A a \in DOMAIN archs :
                    (objs[o].uses > 0) => \A x \in results :
                        (x[1] = objs[o].fam /\ x[2] = objs[o].cfg /\ x[3] = archs[a]) => x[4] = Eval(objs[o].fam, objs[o].cfg, archs[a])
+
+\* Across families: what a rule reports is what the graph questions answer.  The imports a 'should not import'
+\* rule lists are the union of get_dependencies over its subject/object pairs; the imports a 'should not import
+\* ... except' rule lists are the union of the 'other' question over its subjects - whatever the filters are
+\* (related or not), since both sides are stated with the same operators.
+RulesReportQueries ==
+    \A x, y \in results :
+        (x[1] = "rule" /\ y[1] = "query" /\ x[3] = y[3] /\ x[2].verb = "should_not" /\ ~x[2].any
+           /\ x[2].subs = (IF x[2].dir = "import" THEN y[2].dep ELSE y[2].upon)
+           /\ x[2].objs = (IF x[2].dir = "import" THEN y[2].upon ELSE y[2].dep))
+        => /\ (y[2].q = "deps" /\ ~x[2].exc) => x[4].realised = UNION {y[4][k] : k \in DOMAIN y[4]}
+           /\ (y[2].q = "other_from" /\ x[2].exc /\ x[2].dir = "import")   => x[4].realised = UNION {y[4][k] : k \in DOMAIN y[4]}
+           /\ (y[2].q = "other_on"   /\ x[2].exc /\ x[2].dir = "imported") => x[4].realised = UNION {y[4][k] : k \in DOMAIN y[4]}
+\* (vacuity guard, expected to be VIOLATED: some reachable state does pair a rule with the question it is built from)
+NoRuleMeetsItsQuery ==
+    ~\E x, y \in results :
+        /\ x[1] = "rule" /\ y[1] = "query" /\ x[3] = y[3] /\ x[3] # {} /\ x[2].verb = "should_not" /\ ~x[2].any /\ ~x[2].exc
+        /\ y[2].q = "deps" /\ x[2].dir = "import" /\ x[2].subs = y[2].dep /\ x[2].objs = y[2].upon /\ x[4].realised # {}
+\* visualize: every module labelled exactly once or the call rejected; never anything else
+VizTotal == \A x \in results : x[1] = "viz" =>
+                \/ x[4].out = "error" /\ x[4].unknown # {} /\ x[4].unknown \cap T = {}
+                \/ x[4].out = "ok" /\ DOMAIN x[4].labels = T
 =============================================================================
